@@ -1728,3 +1728,203 @@ func (c *Ctx) whoMayCall(rule string, target *FuncInfo, allowed map[string]strin
 	}
 	return n
 }
+
+// ABSENT-USE: lengths, supports and p-values have an "absent" sentinel (NIL_LENGTH, NIL_SUPPORT,
+// NIL_PVALUE = -1). In the branch taken when a value equals its sentinel, that value is not an
+// operand of arithmetic: half of an absent length is -0.5, a length the writer then prints. (A
+// guard with the wrong polarity - `if length == NIL_LENGTH { halves = length / 2 }` - is the usual
+// way to get there.)
+func (c *Ctx) absentUse(rule string, funcs []*FuncInfo, clause string) (sites, viol int) {
+	isSentinel := func(info *types.Info, e ast.Expr) bool {
+		var id *ast.Ident
+		switch x := unparen(e).(type) {
+		case *ast.Ident:
+			id = x
+		case *ast.SelectorExpr:
+			id = x.Sel
+		}
+		if id == nil {
+			return false
+		}
+		cn, ok := info.Uses[id].(*types.Const)
+		return ok && strings.HasPrefix(cn.Name(), "NIL_") && cn.Pkg() != nil && strings.HasSuffix(cn.Pkg().Path(), "/tree")
+	}
+	for _, fi := range funcs {
+		if fi.Decl.Body == nil {
+			continue
+		}
+		info := fi.Pkg.TypesInfo
+		per := 0
+		ast.Inspect(fi.Decl.Body, func(nd ast.Node) bool {
+			is, ok := nd.(*ast.IfStmt)
+			if !ok {
+				return true
+			}
+			// conjuncts of the condition (positive), or the whole condition
+			var conj []ast.Expr
+			var split func(e ast.Expr)
+			split = func(e ast.Expr) {
+				if be, isBin := unparen(e).(*ast.BinaryExpr); isBin && be.Op == token.LAND {
+					split(be.X)
+					split(be.Y)
+					return
+				}
+				conj = append(conj, unparen(e))
+			}
+			split(is.Cond)
+			for _, cj := range conj {
+				be, isBin := cj.(*ast.BinaryExpr)
+				if !isBin || (be.Op != token.EQL && be.Op != token.NEQ) {
+					continue
+				}
+				var val ast.Expr
+				switch {
+				case isSentinel(info, be.Y):
+					val = be.X
+				case isSentinel(info, be.X):
+					val = be.Y
+				default:
+					continue
+				}
+				var absent ast.Node
+				if be.Op == token.EQL {
+					absent = is.Body
+				} else if len(conj) == 1 && is.Else != nil {
+					absent = is.Else
+				}
+				if absent == nil {
+					continue
+				}
+				sites++
+				per++
+				vk := c.canon(info, val, nil)
+				// re-assigned in the branch: the sentinel is being replaced, later uses are of the new value
+				reassigned := false
+				ast.Inspect(absent, func(m ast.Node) bool {
+					if as, isAs := m.(*ast.AssignStmt); isAs {
+						for _, l := range as.Lhs {
+							if c.canon(info, l, nil) == vk {
+								reassigned = true
+							}
+						}
+					}
+					return true
+				})
+				if reassigned {
+					continue
+				}
+				var bad *ast.BinaryExpr
+				ast.Inspect(absent, func(m ast.Node) bool {
+					ar, isAr := m.(*ast.BinaryExpr)
+					if !isAr || bad != nil {
+						return true
+					}
+					switch ar.Op {
+					case token.ADD, token.SUB, token.MUL, token.QUO:
+						if !isFloat(info.TypeOf(ar)) {
+							return true
+						}
+						if c.canon(info, ar.X, nil) == vk || c.canon(info, ar.Y, nil) == vk {
+							bad = ar
+						}
+					}
+					return true
+				})
+				if bad != nil {
+					viol++
+					c.Violation(rule, fmt.Sprintf("%s/%s#%d", funcName(fi.Obj), vk, per), bad.Pos(), fmt.Sprintf("`%s` is computed in the branch taken when `%s` is the 'absent' value (%s): arithmetic on the sentinel -1 produces a negative number that is then stored or written as if it were a measurement", c.src(bad), c.src(val), c.src(cj))).Clause = clause
+				}
+			}
+			return true
+		})
+	}
+	return
+}
+
+// REINDEX-LAST: the operations of package tree that change the structure of a tree and refresh its
+// derived data themselves (bitsets, hash codes, depths: ReinitInternalIndexes / ReinitIndexes) do so
+// after their last edit: from every call that reaches a structural primitive (ConnectNodes,
+// delNode, delNeighbor, addChild, unconnectNode, ReorderEdges, Edge.Inverse), every path to a
+// successful exit passes a call that reaches UpdateBitSet. The functions are the ones that satisfy
+// this on the reference tree (frozen list); the others leave the refresh to their callers.
+var reindexLastFuncs = []string{"RerootOutGroup", "RerootMidPoint", "RemoveTips", "Reroot", "Resolve", "ResolveNamedInternalNodes", "RemoveSingleNodes", "RemoveEdges", "UnRoot", "SubTree", "Merge"}
+
+func (c *Ctx) reindexLast(rule string, names []string, clause string, discover bool) int {
+	n := 0
+	isPrim := func(fn *types.Func) bool {
+		if fn == nil || !inRepo(fn) {
+			return false
+		}
+		switch fn.Name() {
+		case "ConnectNodes", "delNode", "delNeighbor", "addChild", "unconnectNode", "ReorderEdges", "Inverse":
+			return strings.HasSuffix(fn.Pkg().Path(), "/tree")
+		}
+		return false
+	}
+	isRefresh := func(fn *types.Func) bool { return isRepoFunc(fn, "tree", "Tree", "UpdateBitSet") }
+	want := map[string]bool{}
+	for _, nm := range names {
+		want[nm] = true
+	}
+	for _, fi := range c.AllFuncs("tree") {
+		if fi.Decl.Body == nil || fi.Decl.Recv == nil || recvNamed(fi.Obj) == nil || recvNamed(fi.Obj).Obj().Name() != "Tree" {
+			continue
+		}
+		if !discover && !want[fi.Obj.Name()] {
+			continue
+		}
+		info := fi.Pkg.TypesInfo
+		var edits []*ast.CallExpr
+		refreshes := 0
+		for _, call := range callsIn(fi.Decl.Body, false) {
+			fn := calleeOf(info, call)
+			if fn == nil || !inRepo(fn) || fn == fi.Obj {
+				continue
+			}
+			if c.reaches(fn, isRefresh, 4, map[*types.Func]bool{}) {
+				refreshes++
+				continue // a call that refreshes is not an edit left unrefreshed
+			}
+			if c.reaches(fn, isPrim, 3, map[*types.Func]bool{}) {
+				edits = append(edits, call)
+			}
+		}
+		if len(edits) == 0 || (refreshes == 0 && discover) {
+			continue
+		}
+		if refreshes == 0 {
+			n++
+			c.Violation(rule, funcName(fi.Obj)+"/refresh-after-last-edit", edits[len(edits)-1].Pos(), fmt.Sprintf("%s edits the structure of the tree (`%s`) and no longer recomputes bitsets, hash codes and depths: the branches it created have none and the others describe the tree as it was", fi.Obj.Name(), c.src(edits[len(edits)-1]))).Clause = clause
+			continue
+		}
+		g := c.cfgOf(info, fi.Decl.Body)
+		var bad *ast.CallExpr
+		var esc token.Pos
+		for _, e := range edits {
+			res := mustPass(g, e.Pos(), func(m ast.Node) bool {
+				return containsCall(info, m, func(_ *ast.CallExpr, fn *types.Func) bool {
+					return fn != nil && inRepo(fn) && fn != fi.Obj && c.reaches(fn, isRefresh, 4, map[*types.Func]bool{})
+				})
+			}, func(ret *ast.ReturnStmt) bool { return returnsNilError(info, ret) })
+			if !res.ok && bad == nil {
+				bad, esc = e, res.escape
+			}
+		}
+		if discover {
+			if bad == nil {
+				n++
+				c.Note(rule, "discover/"+fi.Obj.Name(), fi.Decl.Pos(), fmt.Sprintf("%d edits, all followed by a refresh", len(edits)))
+			}
+			continue
+		}
+		n++
+		key := funcName(fi.Obj) + "/refresh-after-last-edit"
+		if bad != nil {
+			_, ln := c.pos(esc)
+			c.Violation(rule, key, bad.Pos(), fmt.Sprintf("after `%s` %s can return successfully (line %d) without recomputing bitsets, hash codes and depths: the branches it created have none and the others describe the tree as it was", c.src(bad), fi.Obj.Name(), ln)).Clause = clause
+		} else {
+			c.OK(rule, key, fi.Decl.Pos(), fmt.Sprintf("every successful exit after each of the %d structural edits passes a refresh of the derived data", len(edits))).Clause = clause
+		}
+	}
+	return n
+}
